@@ -19,6 +19,37 @@ class Unsupported(Exception):
     pass
 
 
+def fmt_pieces(tmpl):
+    """Rust format string -> list of ("lit", text) / ("arg", inner) pieces ({{ and }} are escapes)"""
+    out, lit, i, n = [], "", 0, len(tmpl)
+    while i < n:
+        c = tmpl[i]
+        if c == "{":
+            if i + 1 < n and tmpl[i + 1] == "{":
+                lit += "{"
+                i += 2
+                continue
+            j = tmpl.index("}", i)
+            if lit:
+                out.append(("lit", lit))
+                lit = ""
+            out.append(("arg", tmpl[i + 1:j]))
+            i = j + 1
+        elif c == "}":
+            if i + 1 < n and tmpl[i + 1] == "}":
+                lit += "}"
+                i += 2
+            else:
+                lit += "}"
+                i += 1
+        else:
+            lit += c
+            i += 1
+    if lit:
+        out.append(("lit", lit))
+    return out
+
+
 # Integers (token positions, counts, tag ids) are 16-bit bit-vectors with signed comparison: every value
 # that occurs is in [-1, N + emitted items] (N <= 24), so nothing wraps; bit-blasting is far faster than
 # linear integer arithmetic over nested if-then-else terms.
@@ -431,6 +462,7 @@ class Program:
         self.typedefs = {}
         self.consts = {}
         self.trait_impls = {}  # (trait, self_ty) -> [fn names]
+        self.modfns = {}       # (file basename, module, fn) -> fn
         for file, v in ast.items():
             if "items" not in v:
                 raise Unsupported("parse error in %s: %s" % (file, v.get("parse_error")))
@@ -462,6 +494,9 @@ class Program:
             elif k == "mod" and it.get("items") is not None:
                 if any("cfg (test)" in a or "cfg(test)" in a for a in it["meta"]["attrs"]):
                     continue
+                for sub in it["items"]:
+                    if sub["k"] == "fn":
+                        self.modfns[(file.split("/")[-1], it["name"], sub["sig"]["name"])] = sub
                 self._index(it["items"], file)
 
     def resolve_type(self, name):
@@ -756,6 +791,11 @@ class Machine:
                     if not isinstance(v, str):
                         raise Unsupported("string literal pattern on %r" % (v,))
                 return Or(*conds), {}
+            if lit["k"] == "bool":
+                bv = self.as_bool(val)
+                return (bv if lit["v"] else Not(bv)), {}
+            if lit["k"] == "int" and (is_intterm(val) or isinstance(val, int)):
+                return val == int(lit["v"]), {}
             raise Unsupported("literal pattern kind %s" % lit["k"])
         if k == "por":
             conds = []
@@ -958,6 +998,9 @@ class Machine:
             return Or(a, b)
         a = self.eval(e["left"], fr, guard)
         b = self.eval(e["right"], fr, guard)
+        return self.binop(e, op, a, b, fr, guard)
+
+    def binop(self, e, op, a, b, fr, guard):
         if op in ("+=", "-="):
             if isinstance(b, ConsumedV) and op == "+=":
                 nv = b.newpos
@@ -989,6 +1032,12 @@ class Machine:
                 return a + b
             if op == "-":
                 return a - b
+            if op == "*":
+                return a * b
+            if op == "%":
+                return a % b
+            if op == "/":
+                return a / b
             if op == "<":
                 return a < b
             if op == "<=":
@@ -1298,13 +1347,11 @@ class Machine:
         raise Unsupported("macro %s!" % name)
 
     def format(self, tmpl, vals, fr):
-        import re
-        parts = re.split(r"(\{[^{}]*\})", tmpl.replace("{{", "\x00").replace("}}", "\x01"))
         outs = [(True, "")]
         vi = 0
-        for p in parts:
-            if p.startswith("{") and p.endswith("}"):
-                inner = p[1:-1]
+        for kind, p in fmt_pieces(tmpl):
+            if kind == "arg":
+                inner = p
                 if inner == "":
                     if vi >= len(vals):
                         return Opaque("format")
@@ -1321,7 +1368,6 @@ class Machine:
                     return Opaque("format")
                 outs = [(And(g1, g2), s1 + s2) for g1, s1 in outs for g2, s2 in alts]
             else:
-                p = p.replace("\x00", "{").replace("\x01", "}")
                 outs = [(g, s + p) for g, s in outs]
         return mk_alt(outs)
 
